@@ -102,6 +102,7 @@ type genesis struct {
 	// lookup anchors of work reports against it
 	withAncestry bool
 	sharedAuthorizers bool
+	bigStatistics     bool
 	sharedBlob        []byte // solicited by every service of the genesis state
 	permutedSets      bool
 	specialKeys       int // storage entries whose state key has a chosen second octet
@@ -197,6 +198,30 @@ func mkGenesis(t *sim.Tape) *genesis {
 	st.Pi.ValsLast = make(types.ValidatorsStatistics, types.ValidatorsCount)
 	st.Pi.Cores = make(types.CoresStatistics, types.CoresCount)
 	st.Pi.Services = types.ServicesStatistics{}
+	// a node may be started from a snapshot whose activity statistics hold large numbers (gas totals beyond 2^32,
+	// counters at the top of their range): they are exported and imported like everything else
+	if t.Prob(1, 2, "genesis_statistics") {
+		big32 := func() types.U32 {
+			return []types.U32{0, 1, 127, 128, 1 << 14, 1<<21 - 1, 1 << 28, 1<<32 - 1}[t.Choose(8, "stat32")]
+		}
+		big16 := func() types.U16 { return []types.U16{0, 1, 127, 128, 1 << 14, 1<<16 - 1}[t.Choose(6, "stat16")] }
+		big64 := func() types.Gas {
+			return []types.Gas{0, 1, 1<<32 - 1, 1 << 32, 1<<32 + 7, 5_000_000_000, 1 << 56, 1<<64 - 1}[t.Choose(8, "stat64")]
+		}
+		for i := range st.Pi.ValsCurr {
+			st.Pi.ValsCurr[i] = types.ValidatorActivityRecord{Blocks: big32(), Tickets: big32(), PreImages: big32(), PreImagesSize: big32(), Guarantees: big32(), Assurances: big32()}
+			st.Pi.ValsLast[i] = types.ValidatorActivityRecord{Blocks: big32(), Tickets: big32(), PreImages: big32(), PreImagesSize: big32(), Guarantees: big32(), Assurances: big32()}
+		}
+		for c := range st.Pi.Cores {
+			st.Pi.Cores[c] = types.CoreActivityRecord{DALoad: big32(), Popularity: big16(), Imports: big16(), ExtrinsicCount: big16(), ExtrinsicSize: big32(), Exports: big16(), BundleSize: big32(), GasUsed: big64()}
+		}
+		for k := 0; k < t.Choose(4, "nstat_services"); k++ {
+			sid := types.ServiceID([]uint32{0, 255, 70000, 0xFFFFFFFF, 0x00200001}[t.Choose(5, "stat_service")])
+			st.Pi.Services[sid] = types.ServiceActivityRecord{ProvidedCount: big16(), ProvidedSize: big32(), RefinementCount: big32(), RefinementGasUsed: big64(), Imports: big32(),
+				ExtrinsicCount: big32(), ExtrinsicSize: big32(), Exports: big32(), AccumulateCount: big32(), AccumulateGasUsed: big64()}
+		}
+		g.bigStatistics = true
+	}
 	st.Vartheta = make(types.ReadyQueue, types.EpochLength)
 	st.Xi = make(types.AccumulatedQueue, types.EpochLength)
 	for i := 0; i < types.EpochLength; i++ {
@@ -314,6 +339,14 @@ func mkGenesis(t *sim.Tape) *genesis {
 			octets += 81 + uint64(k.Length)
 		}
 		ac.ServiceInfo = types.ServiceInfo{CodeHash: prog.codeH, Balance: types.U64(100 + 10*items + octets + 100000000), MinItemGas: 10, MinMemoGas: 10, Items: types.U32(items), Bytes: types.U64(octets)}
+		if t.Prob(1, 2, "service_info_extremes") {
+			// fields no transition of these histories depends on, at the edges of their ranges
+			ac.ServiceInfo.Balance = []types.U64{1 << 40, 1<<63 - 1, 1<<64 - 1 - 1000000}[t.Choose(3, "balance_big")]
+			ac.ServiceInfo.CreationSlot = types.TimeSlot([]uint32{0, 1, 1 << 31, 1<<32 - 1}[t.Choose(4, "creation_slot")])
+			ac.ServiceInfo.LastAccumulationSlot = types.TimeSlot([]uint32{0, 1, 1 << 31, 1<<32 - 1}[t.Choose(4, "last_acc_slot")])
+			ac.ServiceInfo.ParentService = types.ServiceID([]uint32{0, 255, 1 << 31, 1<<32 - 1}[t.Choose(4, "parent_service")])
+			ac.ServiceInfo.MinMemoGas = []types.Gas{10, 1 << 32, 1<<64 - 1}[t.Choose(3, "memo_gas")]
+		}
 		st.Delta[id] = ac
 	}
 	st.Chi.Bless, st.Chi.Designate, st.Chi.CreateAcct = g.svcIDs[0], g.svcIDs[0], g.svcIDs[0]
